@@ -54,7 +54,7 @@ def main():
         for m_ in ("v2", "execution"):
             t0 = time.time()
             rc, o = sh("go test -vet=off -count=1 -timeout 25m ./... 2>&1 | grep -v 'no test files'", cwd=f"{wt}/{m_}")
-            failed = re.findall(r"^FAIL\s+(\S+)", o, re.M)
+            failed = re.findall(r"^FAIL\s+(github\S+)", o, re.M)
             retried = {}
             for fp in failed:
                 rel = fp.split("/graphql-go-tools/" + ("v2/" if m_ == "v2" else "execution/"))[-1]
